@@ -26,7 +26,7 @@ fn main() {
         level: Level::Exploration,
         quick_runs,
         thorough_runs,
-        quick_wall_s: 75.0,
+        quick_wall_s: 45.0,
         thorough_wall_s: 600.0,
         event_cap,
         enumerate: None,
@@ -44,24 +44,24 @@ fn main() {
         properties: vec![
             p(
                 "C44",
-                60_000,
-                2_000_000,
+                400_000,
+                20_000_000,
                 20_000,
                 "one run = the real CsptpSource::run polling 3-40 times against the real server, a byzantine server or both over a faulty network; every measurement handed to the recording controller must be explained by datagrams with the current request's ids received for that request; any panic of run() is a violation",
                 CSPTP_ASSUME,
             ),
             p(
                 "C45",
-                60_000,
-                2_000_000,
+                300_000,
+                15_000_000,
                 20_000,
                 "one run = the real serve() loop fed by the real client and/or a fuzzing requester while the daemon state is rewritten; every send_event/send_general is judged against the datagram serve() received last, decoded by the oracle's own parser",
                 CSPTP_ASSUME,
             ),
             p(
                 "C40",
-                60_000,
-                2_000_000,
+                300_000,
+                15_000_000,
                 5_000,
                 "one run = the real SockSourceTask reading 10-200 simulated GPSd datagrams; each recorded measurement is attributed to the datagram being processed and judged by the oracle's own decoder of the 40-byte sample",
                 &[
